@@ -37,6 +37,7 @@ func (m *Mutex) Init() {
 // will wait until it has a chance to acquire it.
 func (m *Mutex) Lock() {
 	// Uncontended case.
+	verifPoint(1, m)
 	if atomic.AddInt32(&m.v, -1) == 0 {
 		return
 	}
@@ -46,11 +47,13 @@ func (m *Mutex) Lock() {
 		// that m.v is negative, which indicates to the owner of the
 		// lock that it is contended, which will force it to try to wake
 		// someone up when it releases the mutex.
+		verifPoint(2, m)
 		if v := atomic.LoadInt32(&m.v); v >= 0 && atomic.SwapInt32(&m.v, -1) == 1 {
 			return
 		}
 
 		// Wait for the mutex to be released before trying again.
+		verifPoint(3, m)
 		<-m.ch
 	}
 }
@@ -59,21 +62,25 @@ func (m *Mutex) Lock() {
 // currently held by another goroutine, it fails to acquire it and returns
 // false.
 func (m *Mutex) TryLock() bool {
+	verifPoint(4, m)
 	v := atomic.LoadInt32(&m.v)
 	if v <= 0 {
 		return false
 	}
+	verifPoint(5, m)
 	return atomic.CompareAndSwapInt32(&m.v, 1, 0)
 }
 
 // Unlock releases the mutex.
 func (m *Mutex) Unlock() {
+	verifPoint(6, m)
 	if atomic.SwapInt32(&m.v, 1) == 0 {
 		// There were no pending waiters.
 		return
 	}
 
 	// Wake some waiter up.
+	verifPoint(7, m)
 	select {
 	case m.ch <- struct{}{}:
 	default:
